@@ -351,7 +351,15 @@ func NewSet(fset *token.FileSet, infos []*linter.CheckerInfo) (*Set, error) {
 
 // NewSetSizes is NewSet for a target whose type sizes are not the host's (GOARCH=386 ...).
 func NewSetSizes(fset *token.FileSet, infos []*linter.CheckerInfo, sizes types.Sizes) (*Set, error) {
+	return NewSetConfigured(fset, infos, sizes, "")
+}
+
+// NewSetConfigured additionally configures the Go version (-go flag) BEFORE the checkers are constructed, as the front-ends do.
+func NewSetConfigured(fset *token.FileSet, infos []*linter.CheckerInfo, sizes types.Sizes, goVersion string) (*Set, error) {
 	s := &Set{Ctx: linter.NewContext(fset, sizes), Infos: infos}
+	if goVersion != "" {
+		s.Ctx.SetGoVersion(goVersion)
+	}
 	for _, info := range infos {
 		c, err := linter.NewChecker(s.Ctx, info)
 		if err != nil {
